@@ -10,7 +10,7 @@ PATCH=$(readlink -f "$1"); shift
 WT=$(mktemp -d /var/tmp/mutwt-XXXX); VT=$(mktemp -d /var/tmp/mutvt-XXXX)
 cleanup(){ git -C /repo worktree remove --force "$WT" >/dev/null 2>&1; rm -rf "$WT" "$VT"; }
 trap cleanup EXIT
-rmdir "$WT"; git -C /repo worktree add -q --detach "$WT" HEAD || exit 2
+rmdir "$WT"; git -C /repo worktree add -q --detach "$WT" "${MUT_BASE:-HEAD}" || exit 2
 if [ -n "${MUT_VERBATIM:-}" ]; then
   # the patch is applied as it is, checked-in generated files included and nothing regenerated (C14 changes)
   git -C "$WT" apply "$PATCH" 2>"$VT/apply.err" || { echo "PATCH-DOES-NOT-APPLY"; head -5 "$VT/apply.err"; exit 3; }
